@@ -323,12 +323,17 @@ package resolver
 //@ func (*Resolver).AutoTA
 //@   abstract
 //@   nosafety all pre
-//@   assert at store resolver.Resolver.rootKeys#1: len(value) == 0 && lastret("errors.Is")
+//@   assert at store resolver.Resolver.rootKeys#1: len(value) == 0 && lastret("middleware/resolver.readTombstones", 1) != nil
 //@   assert at store resolver.Resolver.rootKeys#2: lastret("(*middleware/resolver.Resolver).hasTrustAnchors") && value == candidate
 //@   assert at store resolver.Resolver.rootKeys#3: len(value) == 0 && lastret("middleware/resolver.writeTombstones") != nil && lastret("middleware/resolver.writeToTAFile") != nil && newRevocation
 //@   assert at store resolver.Resolver.rootKeys#4: (lastret("middleware/resolver.writeTombstones") == nil || lastret("middleware/resolver.writeToTAFile") == nil) && value == finalRootKeys
 //@   assert at call middleware/resolver.writeToTAFile#1: calls("middleware/resolver.writeTombstones") == 1 && arg1 == kskCurrent
 //@   assert at call middleware/resolver.writeTombstones#1: arg1 == tombstones
+//@   # "if ... the revocation store is unreadable, validation fails closed instead of trusting it": a refresh whose
+//@   # tombstone store could not be read - for ANY reason, not only a payload that does not decode - never reaches
+//@   # either state-file write (so the unreadable store is not replaced by an empty one either)
+//@   assert at call middleware/resolver.writeTombstones#1: lastret("middleware/resolver.readTombstones", 1) == nil
+//@   assert at call middleware/resolver.writeToTAFile#1: lastret("middleware/resolver.readTombstones", 1) == nil
 //@   assert at call middleware/resolver.verifyFetchedKeysWithWork#1: arg0 == candidate && arg1 == resp.Answer
 //@   assert at store resolver.TrustAnchor.State#5: value == StateRevoked && lastret("middleware/resolver.sameKeyExceptRevoke") && revocationSelfSigned[tag]
 //@   # tombstone precedence is enforced on EVERY refresh, whichever way the working set was obtained: a tracked,
